@@ -23,22 +23,35 @@ THOROUGH_SHARDS = 16
 
 def decode(res, raw, inv, label):
     from pykdebugparser.os_log_event import OsLogEvent
-    case = {'raw': raw, 'strings': {str(k): v for k, v in inv.items()}}
+    def case():
+        used = {}
+        def walk(x):
+            if isinstance(x, dict):
+                for v in x.values():
+                    walk(v)
+            elif isinstance(x, list):
+                for v in x:
+                    walk(v)
+            elif isinstance(x, int) and x in inv:
+                used[str(x)] = inv[x]
+        walk(raw)
+        return {'raw': raw, 'strings': used}
     try:
         got = OsLogEvent.from_raw_log_event(logs.fresh(raw), inv)
     except Exception as x:
         where = core.short_tb(x, 1)
         key = f'c16-raises-{core.exc_name(x)}-{where[-1] if where else "?"}'
         res.violation(key, f'{label}: decoding raised {x!r}; optional keys present: {sorted(k for k in raw if k in logs.OPTIONAL_KEYS)}',
-                      case)
+                      case())
         return None
     bad = logs.compare(got, logs.ref_decode(raw, inv))
     if bad:
         res.violation('c16-field-' + bad[0][0].split('.')[0], f'{label}: {[(b[0], str(b[1])[:80], str(b[2])[:80]) for b in bad[:4]]}',
-                      case)
+                      case())
         return None
     res.count('records_compared')
-    RETAINED.append((got, raw, inv, label))
+    if len(RETAINED) < 30000:
+        RETAINED.append((got, raw, inv, label))
     return got
 
 
@@ -52,7 +65,7 @@ def recheck_retained(res):
         if bad:
             res.violation('c16-decoded-record-changed-later', f'{label}: a record that compared equal right after decoding '
                           f'differs after later records were decoded: {[(b[0], str(b[1])[:60], str(b[2])[:60]) for b in bad[:3]]}',
-                          {'raw': raw, 'strings': {str(k): v for k, v in inv.items()}})
+                          {'raw': raw, 'strings': {str(k): v for k, v in list(inv.items())[:200]}})
             return
 
 
